@@ -13,7 +13,7 @@
   * independent reference encoder / decoder / `conforms` / `norm` (T3 oracles), each diffed against its
     Lean counterpart through the driver.
 """
-import base64, binascii, datetime as pydt, decimal, io, itertools, json, re, sys
+import base64, binascii, datetime as pydt, decimal, io, itertools, json, os, re, sys
 
 from . import core
 
@@ -256,8 +256,12 @@ def build_prim(b, p, occ):
 
 
 def build_tyref(b, t):
-    from spyne.model.complex import Array
+    from spyne.model.complex import Array, XmlAttribute, XmlData
     if t['k'] == 'prim':
+        if t.get('mk') == 'attribute':
+            return XmlAttribute(build_prim(b, t['p'], t['o']))
+        if t.get('mk') == 'data':
+            return XmlData(build_prim(b, t['p'], t['o']))
         return build_prim(b, t['p'], t['o'])
     kw = _occ_kwargs(t['o'])
     if t['k'] == 'ref':
@@ -384,8 +388,13 @@ def prim_of(b, cls):
 
 
 def ty_of(b, cls):
-    """the shared-vocabulary `Ty` of a live spyne class"""
-    from spyne.model.complex import Array, ComplexModelBase
+    """the shared-vocabulary `Ty` of a live spyne class (member kinds ride along as the extra key 'mk' of an
+    attribute / data member's type: the element-only Lean decoder ignores it, `tyAOf` reads it)"""
+    from spyne.model.complex import Array, ComplexModelBase, XmlAttribute, XmlData
+    if issubclass(cls, XmlAttribute):
+        return dict(ty_of(b, cls.type), mk='attribute')
+    if issubclass(cls, XmlData):
+        return dict(ty_of(b, cls.type), mk='data')
     if issubclass(cls, Array):
         (member, ser), = cls._type_info.items()
         # the namespace the live Array class ended up in travels with the member name (Clark notation)
@@ -544,20 +553,35 @@ def gen_prim_val(rng, p, conform=True):
     raise core.Infra('gen_prim_val ' + t)
 
 
+def has_required_attr(ty):
+    return ty['k'] == 'obj' and any(t.get('mk') == 'attribute' and t['o']['min'] > 0 for _, t in ty['fields'])
+
+
 def gen_one(rng, ty, none_p=0.12):
-    """a conformant single occurrence (may be None when nillable)"""
-    if ty['o']['nillable'] and rng.random() < none_p:
+    """a conformant single occurrence (may be None when nillable). A class with a required attribute cannot be sent
+    as an xsi:nil element schema-validly (XSD demands required attributes on nilled elements too): no None there."""
+    if ty['o']['nillable'] and not has_required_attr(ty) and rng.random() < none_p:
         return None
     if ty['k'] == 'prim':
         v = gen_prim_val(rng, ty['p'])
         return v
     if ty['k'] == 'obj':
-        return {'o': [ty['name'], [[k, gen_field(rng, t)] for k, t in ty['fields']]]}
+        return {'o': [ty['name'], [[k, gen_mod(rng, t) if t.get('mk') else gen_field(rng, t)] for k, t in ty['fields']]]}
     n = rng.choice([0, 1, 1, 2, 3])
     items = [gen_one(rng, ty['elem']) for _ in range(n)]
     if any(i is None and not ty['elem']['o']['nillable'] for i in items):
         items = [i for i in items if i is not None]
     return {'l': items}
+
+
+def gen_mod(rng, ty, none_p=0.3):
+    """a conformant value of an attribute / data member: None only when it is optional (min_occurs = 0)"""
+    # the text of a simple-content element cannot be left out schema-validly unless its type has an empty literal
+    if ty.get('mk') == 'data' and ty['p']['t'] not in ('str', 'bytes'):
+        none_p = 0
+    if ty['o']['min'] == 0 and rng.random() < none_p:
+        return None
+    return gen_prim_val(rng, ty['p'])
 
 
 def gen_field(rng, ty, none_p=0.2):
@@ -676,7 +700,7 @@ def empty_bytes_nn(ty, v):
     if 'x' in v:
         return not v['x'] and not ty['o']['nillable']
     if 'o' in v and ty['k'] == 'obj':
-        return any(empty_bytes_nn(t, fv) for (_, t), (_, fv) in zip(ty['fields'], v['o'][1]))
+        return any(empty_bytes_nn(t, fv) for (_, t), (_, fv) in zip(ty['fields'], v['o'][1]) if not t.get('mk'))
     if 'l' in v:
         t = ty if (repeated(ty['o']) and ty['k'] != 'arr') else ty['elem'] if ty['k'] == 'arr' else ty
         return any(empty_bytes_nn(t, i) for i in v['l'])
@@ -702,7 +726,7 @@ def py_norm_one(ty, v, fields_of=None):
         fields = ty['fields']
         if cls != ty['name'] and fields_of is not None and cls in fields_of:
             fields = fields_of[cls]
-        out = [[k, py_norm(t, fv) if True else fv] for (kk, t), (k, fv) in zip(fields, fs)]
+        out = [[k, py_norm_mod(t, fv) if t.get('mk') else py_norm(t, fv)] for (kk, t), (k, fv) in zip(fields, fs)]
         return {'o': [cls, out + fs[len(out):]]}
     if 'l' in v and ty['k'] == 'arr':
         return {'l': [py_norm_one(ty['elem'], i) for i in v['l']]}
@@ -975,10 +999,17 @@ def ref_encode_one(b, ty, v, ns, name, tns, poly=False):
                 fields = b.fields_of[cls]
                 attrs = [[XSI_TYPE, cps('{%s}%s' % (b.ns_of[cls], cls))]]
                 cns = b.ns_of[cls]
-        kids = []
+        kids, text = [], None
         for (k, t), (_, fv) in zip(fields, fs):
-            kids += ref_encode_field(b, t, fv, cns, k, tns, poly)
-        return mk_node(ns, name, attrs=attrs, children=kids)
+            if t.get('mk') == 'attribute':
+                if fv is not None:
+                    attrs = attrs + [[k, cps(ref_text(t['p'], fv))]]
+            elif t.get('mk') == 'data':
+                if fv is not None:
+                    text = cps(ref_text(t['p'], fv)) or None
+            else:
+                kids += ref_encode_field(b, t, fv, cns, k, tns, poly)
+        return mk_node(ns, name, attrs=attrs, text=text, children=kids)
     ens, member = split_member(tns, ns, ty)
     return mk_node(ns, name, children=[ref_encode_one(b, ty['elem'], i, ens, member, tns, poly) for i in v['l']])
 
@@ -1131,6 +1162,13 @@ def ref_decode_one(b, ty, el, ctx_ns=None, tns=None):
         out = []
         kids = [c for c in el if isinstance(c.tag, str)]
         for k, t in fields:
+            if t.get('mk') == 'attribute':
+                a = el.get(k)
+                out.append([k, None if a is None else ref_parse(t['p'], a)])
+                continue
+            if t.get('mk') == 'data':
+                out.append([k, ref_parse(t['p'], el.text) if el.text else None])
+                continue
             mine = [c for c in kids if c.tag == '{%s}%s' % (cns, k)]
             if repeated(t['o']):
                 out.append([k, {'l': [ref_decode_one(b, t, c, cns, tns) for c in mine]} if mine else None])
@@ -1249,6 +1287,7 @@ def stream_check(ctx, b, app, r, u, out_ty, want_out, doc_body, replay, pid, que
 def facts_lean(f):
     return '''-- GENERATED by harness/xmlblock.py (T1) from /repo on every run. Do not edit.
 import SpyneModel.Client
+import SpyneModel.XmlAttr
 namespace SpyneModel.Generated
 open SpyneModel
 
@@ -1266,11 +1305,18 @@ def factsSoap : Soap.FactsSoap where
 def factsClient : Client.FactsClient where
   kwFalsyKept := %s
 
+def factsAttr : Xml.FactsAttr where
+  childAttrsIgnored := %s
+  attrSoftChecked := %s
+  modifierChildSkipped := %s
+  dataTextUnicode := %s
+
 end SpyneModel.Generated
 ''' % (f['nilRule'], str(f['xsiTypeCheck']).lower(), str(f['childAttrGuard']).lower(),
        str(f['emptyStringText']).lower(), str(f['streamSameTree']).lower(), str(f['emptyBodyGuard']).lower(),
        str(f['outHeaderTupleOk']).lower(),
-       str(f['kwFalsyKept']).lower())
+       str(f['kwFalsyKept']).lower(), str(f['childAttrsIgnored']).lower(), str(f['attrSoftChecked']).lower(),
+       str(f['modifierChildSkipped']).lower(), str(f['dataTextUnicode']).lower())
 
 
 def finish_built(b, app):
@@ -1404,6 +1450,52 @@ def measure_facts():
     w['streamSameTree'] = {'proto': 'xml', 'validator': None, 'request': '<s0 xmlns="urn:w"/> (polymorphic=True), response '
                            'serialised with ctx.out_stream set', 'expected': 'the bytes written to ctx.out_stream parse to the same '
                            'element tree (xsi:type resolved) as ctx.out_document', 'observed': obs}
+    # attribute / data switches
+    i = witness_universe()['methods'][0]['args'][0][1]
+
+    def _a(p, mn=0):
+        return {'k': 'prim', 'p': p, 'o': dict(default_occ(), min=mn), 'mk': 'attribute'}
+    pint = {'t': 'int', 'kind': 'i8', 'ge': None, 'gt': None, 'le': None, 'lt': None}
+    pstr = {'t': 'str', 'min': 0, 'max': None, 'pat': None, 'values': []}
+    ua = {'tns': 'urn:w', 'idx': 9995, 'classes': [
+        {'name': 'A0', 'ns': 'urn:w', 'base': None, 'depth': 0, 'own': [['id', _a(pint)], ['x', i]]},
+        {'name': 'A1', 'ns': 'urn:w', 'base': 'A0', 'depth': 1, 'own': [['kid', {'k': 'ref', 'cls': 'A0', 'o': default_occ()}]]},
+        {'name': 'A2', 'ns': 'urn:w', 'base': None, 'depth': 0, 'own': [['req', _a(pint, 1)]]},
+        {'name': 'A3', 'ns': 'urn:w', 'base': None, 'depth': 0,
+         'own': [['value', {'k': 'prim', 'p': pstr, 'o': default_occ(), 'mk': 'data'}], ['unit', _a(pstr)]]}],
+        'methods': [{'name': 'q0', 'args': [['a0', {'k': 'ref', 'cls': 'A1', 'o': default_occ()}],
+                                            ['a1', {'k': 'ref', 'cls': 'A2', 'o': default_occ()}],
+                                            ['a2', {'k': 'ref', 'cls': 'A3', 'o': default_occ()}]],
+                     'rets': [{'k': 'ref', 'cls': 'A3', 'o': default_occ()}]}]}
+    ba = build_classes(ua)
+    appa, sa = make_app(ba, 'xml', None)
+    finish_built(ba, appa)
+    appas, sas = make_app(ba, 'xml', 'soft')
+    d = '<q0 xmlns="urn:w"><a0><kid id="7"><x>1</x></kid></a0></q0>'
+    r = _probe(ba, sa, d)
+    leak = r[1][0].id if r[0] == 'ok' and r[1][0] is not None else r
+    f['childAttrsIgnored'] = leak is None
+    w['childAttrsIgnored'] = {'proto': 'xml', 'validator': None, 'request': d, 'expected': 'a0.id is None (only the nested object '
+                              'carries id="7")', 'observed': 'a0.id = %r' % (leak,)}
+    d1 = '<q0 xmlns="urn:w"><a1 req="5"/></q0>'
+    d2 = '<q0 xmlns="urn:w"><a0 id="999"/></q0>'
+    r1, r2 = _probe(ba, sas, d1), _probe(ba, sas, d2)
+    f['attrSoftChecked'] = (r1[0] == 'ok' and r1[1][1] is not None and r1[1][1].req == 5 and r2[0] == 'fault')
+    w['attrSoftChecked'] = {'proto': 'xml', 'validator': 'soft', 'request': d1 + '  /  ' + d2, 'expected': 'a required attribute that is '
+                            'present is accepted (req=5); an Integer8 attribute with value 999 is refused',
+                            'observed': '%r / %r' % (r1 if r1[0] != 'ok' else ('ok', r1[1][1]), r2 if r2[0] != 'ok' else ('ok', r2[1][0]))}
+    d = '<q0 xmlns="urn:w"><a2 req="1"><req>3</req></a2><a2 req="2"/><a2 req="1"/></q0>'
+    d = '<q0 xmlns="urn:w"><a2 unit="u"><value>v</value></a2></q0>'
+    r = _probe(ba, sa, d)
+    f['modifierChildSkipped'] = r[0] == 'ok' and r[1][2] is not None and r[1][2].value is None
+    w['modifierChildSkipped'] = {'proto': 'xml', 'validator': None, 'request': d, 'expected': 'a child element named like an XmlData '
+                                 'member is ignored like any unknown child', 'observed': repr(r if r[0] != 'ok' else ('ok', r[1][2]))}
+    ba.ret['q0'] = ba.cls['A3'](value='h\u00e9llo \U0001F600', unit='m')
+    r = run_request(ba, sa, b'<q0 xmlns="urn:w"/>')
+    okd = bool(r.out) and not r.crash and not r.fault and 'h\u00e9llo'.encode('utf-8') in r.out
+    f['dataTextUnicode'] = okd
+    w['dataTextUnicode'] = {'proto': 'xml', 'validator': None, 'request': "<q0 xmlns=\"urn:w\"/> returning A3(value='h\\xe9llo \\U0001F600')",
+                            'expected': 'the response carries the text', 'observed': 'crash=%s (%s) fault=%s' % (r.crash, r.tb, r.fault)}
     # outHeaderTupleOk: two declared out headers, ctx.out_header assigned a tuple
     from lxml import etree
     u2 = witness_universe()
@@ -1451,9 +1543,11 @@ def measure_facts():
 
 
 GOOD = {'nilRule': 'xsdBoolean', 'xsiTypeCheck': True, 'childAttrGuard': True, 'emptyStringText': True,
-        'emptyBodyGuard': True, 'outHeaderTupleOk': True, 'kwFalsyKept': True, 'streamSameTree': True}
-SWITCH_PROPS = {'C01': ('nilRule', 'emptyStringText', 'outHeaderTupleOk', 'kwFalsyKept', 'streamSameTree'), 'C04': ('xsiTypeCheck',), 'C05': ('nilRule', 'emptyStringText'),
-                'C10': ('childAttrGuard', 'emptyBodyGuard'), 'C16': ('streamSameTree',)}
+        'emptyBodyGuard': True, 'outHeaderTupleOk': True, 'kwFalsyKept': True, 'streamSameTree': True,
+        'childAttrsIgnored': True, 'attrSoftChecked': True, 'modifierChildSkipped': True, 'dataTextUnicode': True}
+SWITCH_PROPS = {'C01': ('nilRule', 'emptyStringText', 'outHeaderTupleOk', 'kwFalsyKept', 'streamSameTree', 'childAttrsIgnored',
+                        'attrSoftChecked', 'dataTextUnicode'), 'C04': ('xsiTypeCheck',), 'C05': ('nilRule', 'emptyStringText', 'attrSoftChecked', 'childAttrsIgnored'),
+                'C10': ('childAttrGuard', 'emptyBodyGuard', 'modifierChildSkipped'), 'C16': ('streamSameTree',)}
 
 
 def t1(ctx):
@@ -1880,7 +1974,13 @@ def py_ok(b, ty, v, poly=False, strict=True, one=False):
     for (k, t), (k2, fv) in zip(fields, fs):
         if k != k2:
             return False
-        if fv is None:
+        if t.get('mk'):
+            if fv is None:
+                if t['o']['min'] != 0:
+                    return False
+            elif not py_prim_ok(t['p'], fv):
+                return False
+        elif fv is None:
             if not (t['o']['min'] == 0 or (t['o']['nillable'] and not repeated(t['o']))):
                 return False
         elif not py_ok(b, t, fv, poly, strict):
@@ -2009,6 +2109,7 @@ def part_c04(ctx):
                         vv = queries[-1]['val']
                         expect.append(('hasTy', {'ok': py_has_ty_one(b, in_ty, vv)} if _no_bad(vv) else None, replay))
     c04_sequences(ctx)
+    attrs_hostile(ctx, 'c04')
     answers = ctx.model(queries, driver='C01')
     for q, (op, impl, case), mod in zip(queries, expect, answers):
         if impl is not None and norm_answer(mod) != impl:
@@ -2028,6 +2129,14 @@ def replay(ctx, obj):
     kind = obj.get('kind')
     if kind == 'c04seq':
         return replay_c04seq(ctx, obj)
+    if kind == 'probe' and obj.get('probe') in ('required-xmldata-none-nils-object', 'xmldata-after-elements-lost',
+                                                 'qualified-attribute-not-read-back'):
+        rc = 0
+        for tag, what, good, doc, err in run_oddities():
+            if tag == obj['probe']:
+                print('probe %s: %s\nwritten: %s\nvalue survived the round trip: %s %s' % (tag, what, doc, good, err or ''))
+                rc = 0 if good else 1
+        return rc
     if kind not in ('switch', 'c01', 'c01x', 'c01c', 'c04', 'c05', 'c10', 'c16', 'c16-order') or \
             (kind == 'switch' and obj.get('switch') not in GOOD):
         raise KeyError(kind)        # another block's replay file
@@ -2079,8 +2188,15 @@ def replay(ctx, obj):
     if parsed is not None:
         q = decode_query(b, obj['proto'], obj.get('validator'), node_of(parsed), need_iface=True)
         q['cfg']['polymorphic'] = poly
-        ans = ctx.model([q], driver='C01')[0]
         impl = impl_decode_outcome(b, r)
+        bnode = body_of(obj['proto'], node_of(parsed))
+        if obj.get('attrs') and mname and bnode is not None:
+            # classes with attribute / data members: the model with member kinds, on the body entry
+            q = {'op': 'xmla.decode', 'cfg': cfg_json(obj.get('validator')), 'iface': slim_iface(b, False),
+                 'ty': b.methods[mname][1], 'doc': bnode}
+            if impl is not None and 'ok' in impl:
+                impl = {'ok': impl['ok'][1]}
+        ans = norm_answer(ctx.model([q], driver='C01')[0])
         print('model   :', json.dumps(ans)[:1500])
         print('impl    :', json.dumps(impl)[:1500])
         print('model == impl:', ans == impl)
@@ -2325,7 +2441,7 @@ def part_c05(ctx):
                         continue
                     mut = clone(req)
                     del node_at(mut, path)['c'][i]
-                    _c05_eval(ctx, b, servers, u, mname, in_ty, mut, ft['o']['min'] == 0, None,
+                    _c05_eval(ctx, b, servers, u, mname, in_ty, mut, (ft['o']['min'] == 0) if okv else None, None,
                               'element-deleted:min=%d' % min(ft['o']['min'], 1), queries, expect)
                     mut = clone(req)
                     pc = node_at(mut, path)['c']
@@ -2384,6 +2500,7 @@ def part_c05(ctx):
                         'soft validator (%s)' % (r.in_fault or r.crash), {'kind': 'c05', 'universe': u2, 'proto': 'xml',
                                                                          'validator': 'soft', 'method': 'm0',
                                                                          'request': data.decode()})
+    attrs_hostile(ctx, 'c05')
     ctx.cov['exhaustive'] = 'i8/u8 bounds at top-level, nested and array-member positions: %d values x 5 positions x 3 protocols' % len(rng_vals)
     answers = ctx.model(queries, driver='C01')
     for q, (op, impl, case), mod in zip(queries, expect, answers):
@@ -2402,6 +2519,7 @@ _LEX_CLASSES = {
     ('bool', 'True'): 'case', ('bool', 'TRUE'): 'case', ('dt', '2024-02-29 12:00:00'): 'space-separator',
     ('dt', '2024-02-29T12:00:00+14:01'): 'offset-beyond-14h', ('dur', 'P'): 'no-component', ('dur', 'PT'): 'no-component',
     ('date', '2024-2-9'): 'unpadded-fields', ('time', '25:00:00'): 'hour-out-of-range',
+    ('bytes', '===='): 'padding-only',
 }
 
 
@@ -2486,9 +2604,16 @@ def py_norm_x(b, ty, v, one=False):
     if 'o' in v and ty['k'] == 'obj':
         cls, fs = v['o']
         fields = ty['fields'] if cls == ty['name'] else b.fields_of.get(cls, ty['fields'])
-        return {'o': [cls, [[k, py_norm_x(b, t, fv)] for (kk, t), (k, fv) in zip(fields, fs)]]}
+        return {'o': [cls, [[k, py_norm_mod(t, fv) if t.get('mk') else py_norm_x(b, t, fv)] for (kk, t), (k, fv) in zip(fields, fs)]]}
     if 'l' in v and ty['k'] == 'arr':
         return {'l': [py_norm_x(b, ty['elem'], i, True) for i in v['l']]}
+    return v
+
+
+def py_norm_mod(t, v):
+    """attribute values arrive unchanged; an XmlData value that is the empty string / empty bytes arrives as None"""
+    if t.get('mk') == 'data' and isinstance(v, dict) and (v.get('s') == [] or v.get('x') == []):
+        return None
     return v
 
 
@@ -2803,6 +2928,7 @@ def part_c10(ctx):
             ctx.hit('t2:oracle-schema-reject')
         elif norm_answer(mod) != impl:
             ctx.disagree(op, case, impl, mod)
+    attrs_hostile(ctx, 'c10')
     ctx.cov['rule_c10_xml'] = ('valid requests of generated signatures damaged by prefix truncation, random bytes, bit flips, fixed '
                                'hostile literals, 13 kinds of structure-aware tree mutation and 12 kinds of envelope / dispatch '
                                'damage; {xml,soap11,soap12} x {None,soft,lxml} through ServerBase, a sample through WsgiApplication; '
@@ -3420,3 +3546,406 @@ def replay_c04seq(ctx, obj):
         print('   ', payload[:400])
         bad += 0 if ok else 1
     return 1 if bad else 0
+
+
+# ====================================================================================== C01: XML attributes and XmlData
+_ATTR_NAMES = ['id', 'ref', 'lang', 'unit', 'ver']
+
+
+def gen_attr_member(rng, kind):
+    """an attribute / data member: a primitive of any kind (bytes included), at most once; an attribute is required
+    (`use`) when min_occurs = 1, an XmlData member is always optional"""
+    # an XmlData member of a customised primitive makes spyne publish a schema that does not compile (the anonymous
+    # simple type lands in the namespace 'spyne.model.primitive.string'): data members use plain primitives
+    p = gen_prim(rng, facets=(kind == 'attribute'))
+    while kind == 'data' and p['t'] == 'enum':      # likewise an enumeration as XmlData (unresolved simple type in the schema)
+        p = gen_prim(rng, facets=False)
+    occ = default_occ()
+    if kind == 'attribute' and rng.random() < 0.35:
+        occ['min'] = 1
+    return {'k': 'prim', 'p': p, 'o': occ, 'mk': kind}
+
+
+def gen_universe_attrs(rng, idx):
+    """like gen_universe, with 0-3 attribute members per class (names from a small pool, so that a class and the
+    classes nested in it often share attribute names), inherited by subclasses, and some 'simple content' classes
+    (attributes + one XmlData member, no element members)"""
+    u = gen_universe(rng, idx, n_classes=rng.randint(2, 5), inherit=0.4)
+    bases = set(c['base'] for c in u['classes'] if c['base'])
+    for c in u['classes']:
+        taken = set(k for k, _ in flat_fields_schema(u, c['name']))
+        if c['base'] is None and c['name'] not in bases and rng.random() < 0.3:
+            # simple-content class: attributes and one data member only
+            c['own'] = [['value', gen_attr_member(rng, 'data')]]
+            taken = {'value'}
+        for _ in range(rng.choice([0, 1, 1, 2, 3])):
+            k = rng.choice(_ATTR_NAMES)
+            if k in taken or any(k in set(kk for kk, _ in flat_fields_schema(u, d['name'])) for d in u['classes']
+                                 if _descends(u, d['name'], c['name'])):
+                continue
+            taken.add(k)
+            c['own'].insert(rng.randint(0, len(c['own'])) if c['own'] and c['own'][0][1].get('mk') != 'data' else len(c['own']),
+                            [k, gen_attr_member(rng, 'attribute')])
+    return u
+
+
+def _descends(u, name, anc):
+    byname = {c['name']: c for c in u['classes']}
+    n = byname[name]['base']
+    while n:
+        if n == anc:
+            return True
+        n = byname[n]['base']
+    return False
+
+
+def kinds_disjoint(ty, node):
+    """schema-independent shape of emitted documents: an attribute / data member never appears as a child element, an
+    element member never as an attribute (returns a description of the first offence or None)"""
+    if ty['k'] == 'obj':
+        if any(k == XSI_NIL for k, _ in node['a']):
+            return None
+        mods = set(k for k, t in ty['fields'] if t.get('mk'))
+        elems = dict((k, t) for k, t in ty['fields'] if not t.get('mk'))
+        for c in node['c']:
+            if c['n'] in mods:
+                return 'member %s is marshalled as %s but appears as child element' % (c['n'], dict(ty['fields'])[c['n']]['mk'])
+            if c['n'] in elems:
+                r = kinds_disjoint(elems[c['n']], c)
+                if r:
+                    return r
+        for k, _ in node['a']:
+            if k in elems:
+                return 'element member %s appears as attribute' % k
+    elif ty['k'] == 'arr':
+        for c in node['c']:
+            r = kinds_disjoint(ty['elem'], c)
+            if r:
+                return r
+    return None
+
+
+def has_mods(ty):
+    if ty['k'] == 'obj':
+        return any(t.get('mk') or has_mods(t) for _, t in ty['fields'])
+    if ty['k'] == 'arr':
+        return has_mods(ty['elem'])
+    return False
+
+
+# ====================================================================================== attribute / data members: hostile documents
+def typed_objects(ty, node, path=()):
+    """(path, class type) of every element a decoder reads as an instance of a class"""
+    if any(k in (XSI_NIL, XSI_TYPE) for k, _ in node['a']):
+        return
+    if ty['k'] == 'obj':
+        yield path, ty
+        fields = {k: t for k, t in ty['fields'] if not t.get('mk')}
+        for i, c in enumerate(node['c']):
+            if c['n'] in fields:
+                for x in typed_objects(fields[c['n']], c, path + (i,)):
+                    yield x
+    elif ty['k'] == 'arr':
+        for i, c in enumerate(node['c']):
+            for x in typed_objects(ty['elem'], c, path + (i,)):
+                yield x
+
+
+def bad_literal(rng, p, current=None):
+    """a literal outside the value space of primitive `p` (None if there is none to be had cheaply)"""
+    t = p['t']
+    opts = []
+    if t == 'int':
+        lo, hi = _int_window(p)
+        opts = [str(lo - 1)] if lo is not None else []
+        opts += [str(hi + 1)] if hi is not None else []
+        opts += ['junk', '1.5']
+    elif t == 'str':
+        if p['values']:
+            opts = ['zz-not-a-value']
+        elif p['pat'] is not None:
+            opts = [(current or '') + '!'] if not any(a <= 0x21 <= z for a, z in p['pat']['ranges']) else []
+        else:
+            if p['max'] is not None:
+                opts.append('x' * (p['max'] + 1))
+            if p['min'] > 0:
+                opts.append('x' * (p['min'] - 1))
+    elif t in ('bool', 'date', 'time', 'dt', 'dur'):
+        opts = ['junk']
+    elif t == 'enum':
+        opts = ['nope']
+    return rng.choice(opts) if opts else None
+
+
+def attr_mutations(rng, b, in_ty, req, limit):
+    """document-level mutations around attribute / data members: (tag, document, expected soft verdict or None)"""
+    out = []
+    objs = [(path, ct) for path, ct in typed_objects(in_ty, req) if path and any(t.get('mk') for _, t in ct['fields'])]
+    rng.shuffle(objs)
+    for path, ct in objs[:3]:
+        el = node_at(req, path)
+        names = {k for k, _ in ct['fields']}
+
+        def mut(f):
+            d = clone(req)
+            f(node_at(d, path))
+            return d
+        for k, t in ct['fields']:
+            kind = t.get('mk')
+            if kind == 'attribute':
+                cur = [a for a in el['a'] if a[0] == k]
+                if cur:
+                    out.append(('attr-removed:%s' % ('required' if t['o']['min'] > 0 else 'optional'),
+                                mut(lambda e: e.__setitem__('a', [a for a in e['a'] if a[0] != k])), t['o']['min'] == 0))
+                lit = bad_literal(rng, t['p'], ''.join(map(chr, cur[0][1])) if cur else None)
+                if lit is not None:
+                    out.append(('attr-facet:%s' % t['p']['t'],
+                                mut(lambda e: e.__setitem__('a', [a for a in e['a'] if a[0] != k] + [[k, cps(lit)]])), False))
+                v = gen_prim_val(rng, t['p'])
+                if v is not None and py_prim_ok(t['p'], v):
+                    txt = ref_text(t['p'], v)
+                    out.append(('attr-revalued', mut(lambda e: e.__setitem__('a', [a for a in e['a'] if a[0] != k] +
+                                                                             [[k, cps(txt)]])), True))
+                # the same attribute on a child element whose class has no member of that name
+                for i, c in enumerate(el['c']):
+                    ft = dict(ct['fields']).get(c['n'])
+                    if ft is not None and not ft.get('mk') and ft['k'] == 'obj' and k not in {n for n, _ in ft['fields']} \
+                            and not any(a[0] in (XSI_NIL, XSI_TYPE) for a in c['a']) and v is not None and py_prim_ok(t['p'], v):
+                        out.append(('child-carries-parent-attribute',
+                                    mut(lambda e: e['c'][i]['a'].append([k, cps(ref_text(t['p'], v))])), True))
+                        break
+            elif kind == 'data':
+                lit = bad_literal(rng, t['p'], ''.join(map(chr, el['x'] or [])))
+                if lit:
+                    out.append(('data-facet:%s' % t['p']['t'], mut(lambda e: e.__setitem__('x', cps(lit))), False))
+            if kind:
+                out.append(('child-named-like-%s-member' % kind,
+                            mut(lambda e: e['c'].append(mk_node(el['ns'], k, text=cps('1')))), True))
+        if 'zz9' not in names:
+            out.append(('attr-unknown', mut(lambda e: e['a'].append(['zz9', cps('1')])), True))
+    rng.shuffle(out)
+    return out[:limit]
+
+
+def attrs_hostile(ctx, pid):
+    """classes with attribute / data members under document-level mutations (attribute removed / out of its value space /
+    revalued / unknown, text out of the value space, a child element named like such a member, the parent's attribute on
+    a child), validators None and soft, all three protocols. pid selects the T3 oracle: c05 the soft verdict, c04 the types
+    of what the function receives, c10 no crash; T2 (`xmla.decode`) always."""
+    rng = ctx.rng
+    queries, expect = [], []
+    n_univ = 60 if ctx.thorough else 12
+    for ui in range(n_univ):
+        u = gen_universe_attrs(rng, 7500 + ui)
+        b = build_classes(u)
+        servers = servers_for(b, validators=(None, 'soft'))
+        for mname in sorted(b.methods):
+            key, in_ty, out_ty = b.methods[mname]
+            if not has_mods(in_ty):
+                continue
+            call = gen_call(rng, b, mname)
+            if call is None:
+                continue
+            args, rets = call
+            inv = msg_val(in_ty, args)
+            if not py_ok(b, in_ty, inv, strict=True, one=True):
+                continue
+            set_return(b, mname, out_ty, rets)
+            req = ref_encode_one(b, in_ty, inv, u['tns'], mname, u['tns'])
+            for tag, doc, exp in attr_mutations(rng, b, in_ty, req, 12 if ctx.thorough else 6):
+                for (proto, validator), (app, server) in sorted(servers.items(), key=str):
+                    data = to_bytes(wrap_envelope(proto, [doc]))
+                    r = run_request(b, server, data)
+                    ctx.case({'p': proto, 'v': validator, 'doc': doc}, True)
+                    accepted = bool(r.calls)
+                    ctx.hit('%s:attrs:%s:%s' % (pid, tag, 'crash' if r.crash else 'accept' if accepted else 'reject'))
+                    replay = {'kind': 'c05', 'universe': u, 'proto': proto, 'validator': validator, 'method': mname,
+                              'request': data.decode('utf-8', 'replace'), 'mutation': 'attrs:' + tag, 'expected_accept': exp,
+                              'attrs': True}
+                    code = r.in_fault or (r.fault if not r.calls else None)
+                    if (r.crash or (code and not code.startswith('Client'))) and (pid == 'c10' or (pid == 'c05' and validator == 'soft')):
+                        ctx.finding('%s:attrs-crash:%s:%s' % (pid, tag, r.crash or code), 'a document with a %s is answered with '
+                                    '%s (%s at %s)' % (tag, code or 'an exception', r.crash, r.tb), replay)
+                    elif r.crash or (code and not code.startswith('Client')):
+                        pass
+                    elif pid == 'c05' and validator == 'soft' and exp is not None and accepted != exp:
+                        ctx.finding('c05:verdict:attrs:%s:%s' % (tag, 'accepted' if accepted else 'rejected'),
+                                    'soft validation %s a request that %s the declared constraints (%s)' % (
+                                        'accepted' if accepted else 'rejected', 'violates' if not exp else 'satisfies', tag), replay)
+                    elif pid == 'c04' and accepted:
+                        vals = [from_native(b, t, a) for (_, t), a in zip(in_ty['fields'], r.calls[0][1])]
+                        if not all(py_has_ty(b, t, v) for (_, t), v in zip(in_ty['fields'], vals)):
+                            ctx.finding('c04:foreign-value:attrs', 'user code received a value that is not of the declared type '
+                                        'after the mutation %s' % tag, dict(replay, received=vals))
+                    parsed = parse_like_spyne(data, app.in_protocol)
+                    bnode = body_of(proto, node_of(parsed)) if parsed is not None else None
+                    impl = impl_decode_outcome(b, r)
+                    if tag == 'child-named-like-attribute-member' and not ctx.cov.get('facts_xml', GOOD)['modifierChildSkipped']:
+                        # unrepaired trees read such a child with the handlers of the modifier class; the model has that
+                        # branch for XmlData (an internal error) only
+                        ctx.hit('t2:skip-unmodelled-modifier-child')
+                    elif impl is not None and bnode is not None and not int_literal_gap(b, in_ty, bnode):
+                        if 'ok' in impl:
+                            impl = {'ok': impl['ok'][1]}
+                        queries.append({'op': 'xmla.decode', 'cfg': cfg_json(validator), 'iface': slim_iface(b, False),
+                                        'ty': in_ty, 'doc': bnode})
+                        expect.append(('xmla.decode', impl, replay))
+    answers = ctx.model(queries, driver='C01')
+    for q, (op, impl, case), mod in zip(queries, expect, answers):
+        if norm_answer(mod) != impl:
+            ctx.disagree(op, case, impl, mod)
+            if os.environ.get('XML_DEBUG_DIS'):
+                with open(os.environ['XML_DEBUG_DIS'], 'a') as f:
+                    f.write(json.dumps({'q': q, 'impl': impl, 'model': mod, 'case': case}, default=str) + '\n')
+    ctx.cov['rule_attrs_hostile'] = ('requests for signatures with XmlAttribute / XmlData members, one document-level mutation '
+                                     'each (attribute removed / outside its value space / revalued / unknown, text outside the '
+                                     'value space, child element named like such a member, parent attribute on a child); '
+                                     '{xml,soap11,soap12} x {None,soft}')
+
+
+def run_oddities():
+    """three corners of XmlAttribute / XmlData outside the generated universe (the schema cannot express them, or spyne
+    publishes no usable schema for them), probed directly on the protocol objects: write an instance, read it back.
+    -> [(tag, what, value survived?, document written, error)]"""
+    from lxml import etree
+    from spyne import Application, ServiceBase, rpc, ComplexModel, Integer, Unicode, XmlAttribute, XmlData
+    from spyne.protocol.xml import XmlDocument
+
+    def rt(name, info, **kw):
+        K = type(ComplexModel)(name, (ComplexModel,), {'__namespace__': 'urn:odd', '_type_info': info})
+        S = type('S' + name, (ServiceBase,), {'f': rpc(K, _returns=K)(lambda ctx, a: a)})
+        app = Application([S], 'urn:odd', in_protocol=XmlDocument(), out_protocol=XmlDocument())
+        parent = etree.Element('r')
+        app.out_protocol.to_parent(None, K, K(**kw), parent, 'urn:odd')
+        back = app.in_protocol.from_element(None, K, parent[0])
+        return etree.tostring(parent[0]).decode(), back
+
+    probes = (
+        ('required-xmldata-none-nils-object', 'an object whose XmlData member (min_occurs=1) is None is written with xsi:nil on '
+         'the element itself: the whole object, attributes included, arrives as None',
+         lambda: rt('OddA', [('val', XmlData(Integer(min_occurs=1))), ('u', XmlAttribute(Unicode))], u='z'),
+         lambda back: back is not None and back.u == 'z'),
+        ('xmldata-after-elements-lost', 'the XmlData member of a class that also has element members is written as the tail of '
+         'the last child element, which the deserialiser never reads: the value is lost',
+         lambda: rt('OddB', [('k', Integer), ('val', XmlData(Unicode))], k=1, val='hello'),
+         lambda back: back is not None and back.val == 'hello'),
+        ('qualified-attribute-not-read-back', 'XmlAttribute(T, ns=...) is written as a namespace-qualified attribute but the '
+         'deserialiser looks attributes up by member name only: the value is lost',
+         lambda: rt('OddC', [('id', XmlAttribute(Integer, ns='urn:q')), ('x', Integer)], id=5, x=1),
+         lambda back: back is not None and back.id == 5),
+    )
+    out = []
+    for tag, what, run, ok in probes:
+        try:
+            doc, back = run()
+            good, err = ok(back), None
+        except Exception as e:     # noqa: a crash is the finding
+            doc, good, err = None, False, '%s: %s' % (type(e).__name__, e)
+        out.append((tag, what, good, doc, err))
+    return out
+
+
+def attrs_oddities(ctx, pid='c01'):
+    for tag, what, good, doc, err in run_oddities():
+        ctx.case({'probe': 'attrs-oddity', 'tag': tag}, True)
+        ctx.hit('attrs:oddity:%s:%s' % (tag, 'ok' if good else 'lost'))
+        if not good:
+            ctx.finding('%s:attrs:%s' % (pid, tag), what + (' (%s)' % err if err else ''), {'kind': 'probe', 'probe': tag, 'written': doc})
+
+
+def part_c01_attrs(ctx, pid='c01'):
+    """classes with XmlAttribute / XmlData members through the real pipeline: sent values reach the function, results
+    reach the reference decoder; model == code on request decoding and response encoding"""
+    from lxml import etree
+    rng = ctx.rng
+    queries, expect = [], []
+    n_univ = 120 if ctx.thorough else 20
+    for ui in range(n_univ):
+        u = gen_universe_attrs(rng, 7000 + ui)
+        b = build_classes(u)
+        servers = servers_for(b)
+        for mname in sorted(b.methods):
+            key, in_ty, out_ty = b.methods[mname]
+            if not (has_mods(in_ty) or has_mods(out_ty)):
+                continue
+            for _ in range(4 if ctx.thorough else 2):
+                call = gen_call(rng, b, mname)
+                if call is None:
+                    ctx.hit('attrs:skip-unsatisfiable')
+                    continue
+                args, rets = call
+                inv, outv = msg_val(in_ty, args), msg_val(out_ty, rets)
+                if not (py_ok(b, in_ty, inv, strict=True, one=True) and py_ok(b, out_ty, outv, strict=False, one=True)):
+                    ctx.hit('attrs:skip-unsatisfiable')
+                    continue
+                req = ref_encode_one(b, in_ty, inv, u['tns'], mname, u['tns'])
+                set_return(b, mname, out_ty, rets)
+                want_in = py_norm_x(b, in_ty, inv, True)
+                want_out = py_norm_x(b, out_ty, outv, True)
+                for op, ty, val, exp in (('okA', in_ty, inv, True), ('wfA', in_ty, inv, True)):
+                    queries.append({'op': op, 'cfg': cfg_json(None), 'iface': slim_iface(b, False), 'ty': ty, 'val': val, 'strict': True})
+                    expect.append((op, {'ok': exp}, {'ty': ty, 'val': val}))
+                queries.append({'op': 'normA', 'cfg': cfg_json(None), 'iface': slim_iface(b, False), 'ty': in_ty, 'val': inv})
+                expect.append(('normA', {'ok': want_in}, {'ty': in_ty, 'val': inv}))
+                for (proto, validator), (app, server) in sorted(servers.items(), key=str):
+                    data = to_bytes(wrap_envelope(proto, [req]))
+                    r = run_request(b, server, data)
+                    ctx.case({'p': proto, 'v': validator, 'in': inv, 'out': outv}, True)
+                    ctx.hit('attrs:%s/%s' % (proto, validator))
+                    replay = {'kind': 'c01', 'universe': u, 'proto': proto, 'validator': validator, 'method': mname,
+                              'args': args, 'rets': rets, 'request': data.decode('utf-8', 'replace'), 'attrs': True}
+                    if validator == 'soft' and empty_bytes_nn(in_ty, inv):
+                        ctx.hit('attrs:empty-bytes-at-non-nillable-under-soft')
+                    elif r.crash:
+                        ctx.finding('%s:attrs-crash:%s:%s' % (pid, r.crash, r.tb), 'request / response with attribute or data members '
+                                    'crashes: %s at %s (%s)' % (r.crash, r.tb, r.where), replay)
+                    elif r.fault:
+                        ctx.finding('%s:attrs-rejected:%s:%s' % (pid, validator, r.fault), 'conformant request with attribute / data '
+                                    'members rejected with %s under validator=%s' % (r.fault, validator),
+                                    dict(replay, response=(r.out or b'').decode('utf-8', 'replace')))
+                    elif len(r.calls) != 1:
+                        ctx.finding('%s:attrs-calls=%d' % (pid, len(r.calls)), 'function invoked %d times' % len(r.calls), replay)
+                    else:
+                        got = msg_val(in_ty, [from_native(b, t, a) for (_, t), a in zip(in_ty['fields'], r.calls[0][1])])
+                        if got != want_in:
+                            d = first_diff(want_in, got)
+                            ctx.finding('%s:attrs-args-differ:%s' % (pid, diff_kind(d)), 'a value with attribute / data members '
+                                        'reached the function changed at %s' % d, dict(replay, received=got, expected=want_in))
+                        try:
+                            body = unwrap_envelope(proto, etree.fromstring(r.out))
+                            dec = ref_decode_one(b, out_ty, body, u['tns'], u['tns'])
+                        except RefError as e:
+                            dec = {'undecodable': str(e)}
+                        if dec != want_out:
+                            d = 'undecodable' if 'undecodable' in dec else first_diff(want_out, dec)
+                            ctx.finding('%s:attrs-response-differs:%s' % (pid, diff_kind(d)), 'the response does not denote the returned '
+                                        'value at %s' % d, dict(replay, decoded=dec, expected=want_out,
+                                                                response=r.out.decode('utf-8', 'replace')))
+                        body = unwrap_envelope(proto, etree.fromstring(r.out))
+                        bad = kinds_disjoint(out_ty, node_of(body))
+                        if bad:
+                            ctx.finding('%s:attrs-kind-confusion' % pid, bad, dict(replay, response=r.out.decode('utf-8', 'replace')))
+                        queries.append({'op': 'xmla.encode', 'cfg': cfg_json(None), 'iface': slim_iface(b, False), 'ns': u['tns'],
+                                        'name': out_ty['name'], 'ty': out_ty, 'val': outv})
+                        expect.append(('xmla.encode', {'ok': [node_of(body)]}, replay))
+                    # T2 on the body entry at the in-message class (dispatch / envelope are covered by part_c01)
+                    parsed = parse_like_spyne(data, app.in_protocol)
+                    bnode = body_of(proto, node_of(parsed))
+                    impl = impl_decode_outcome(b, r)
+                    if impl is not None and bnode is not None:
+                        if 'ok' in impl:
+                            impl = {'ok': impl['ok'][1]}
+                        queries.append({'op': 'xmla.decode', 'cfg': cfg_json(validator), 'iface': slim_iface(b, False), 'ty': in_ty,
+                                        'doc': bnode})
+                        expect.append(('xmla.decode', impl, replay))
+    answers = ctx.model(queries, driver='C01')
+    for q, (op, impl, case), mod in zip(queries, expect, answers):
+        if norm_answer(mod) != impl:
+            ctx.disagree(op, case, impl, mod)
+            if os.environ.get('XML_DEBUG_DIS'):
+                with open(os.environ['XML_DEBUG_DIS'], 'a') as f:
+                    f.write(json.dumps({'q': q, 'impl': impl, 'model': mod, 'case': case}, default=str) + '\n')
+    attrs_oddities(ctx, pid)
+    ctx.cov['rule_attrs'] = ('universes whose classes carry 0-3 XmlAttribute members (primitives of every kind incl. bytes, optional or '
+                             'required, names from a pool of 5 so that nested / inherited classes share attribute names) and simple-'
+                             'content classes (attributes + one XmlData member); {xml,soap11,soap12} x {None,soft,lxml}')
